@@ -9,13 +9,23 @@ SPEC = dict(
          'combined with a seeded script of writes (sizes 1..300000, issued from outside the loop, from onRead or from onWrite), suspend/resume and peer traffic. '
          'plan-exh: every outcome sequence up to length N (quick 4, thorough 6) over the 5 non-error outcomes x 3 size classes; plan-err: every sequence up to N-1 followed by a hard error; '
          'rand: plans of length 6..40, 1..3 clients, cross suspend while the read event is selected; kernel: no scripted faults, minimal SO_SNDBUF and a slow reader. '
+         'accept-exh / accept-rand / accept-kernel: client 0 comes out of Server::listen (raw loopback connection) or Server::connect (raw loopback listener) and the '
+         'onAccepted / onConnected callback itself acts on it before returning its callback object: nothing / write / suspend / suspend+write / write+suspend / write+write, '
+         'the send outcomes of those writes taken from the plan (kernel mode: payloads of 20000..300000 bytes against a minimal SO_SNDBUF); then the peer talks (nothing may be '
+         'delivered to a client the callback suspended), the backlog has to drain, resume() has to deliver the pending bytes, and the ordinary script continues. '
+         'accept-exh enumerates origin x action x size class x every outcome sequence up to length N (quick 3, thorough 5). '
          'distinct = hash of the observed (send length, return) sequence and the operation sequence; non-trivial = at least one send took less than offered (partial or EAGAIN) '
          '(rand/kernel: and the backlog drained at least once). After every send: offered bytes == next accepted bytes; after every write and at every idle point: '
          'postponed == getSendBufferSize() == accepted - handed to the OS; onWrite exactly at the drain; peer stream == concatenation of accepted slices; independent poll() readiness vs dispatch.',
     assumptions=['ASan/UBSan on the backlog Buffer; library ASSERTs enabled (-DDEBUG)',
                  'write() with size 0 is outside the statement (send() returns 0, which the client treats as a closed connection)',
                  'a hard send error in the write-ready path drops the unsent backlog and closes the client (onClosed): only bytes reported as handed to the OS must reach the peer',
-                 'a peer that closes while its client is suspended without backlog is not generated (the loop then spins on EPOLLHUP without dispatching; not a statement of C13)'],
+                 'a peer that closes while its client is suspended without backlog is not generated (the loop then spins on EPOLLHUP without dispatching; not a statement of C13)',
+                 'accepted / connected clients are loopback TCP sockets: before the application closes such a client (remove() in onClosed) the peer reads what the kernel has already taken - '
+                 'closing a TCP socket with unread inbound data is an abortive close and the kernel then discards bytes it accepted from send() but has not delivered (not a library matter)',
+                 'loopback TCP delivery is asynchronous: where the harness itself put bytes in flight it waits (bounded, real time) until its own poll() sees them before judging the loop; '
+                 'a readiness verdict on a TCP client is a violation only if the needed event bit is missing from the epoll registration observed at the epoll_ctl boundary, '
+                 'with the registration in place the wake-up is re-polled (inconclusive after 10 s, never a violation); the harness-owned TCP ends use TCP_NODELAY / TCP_QUICKACK'],
     technique='libc interposition (send/recv/epoll_wait/clock_gettime), virtual time, reference byte-stream model, independent poll() oracle',
     exhaustive={Q: False, T: False},   # the outcome-sequence x size-class sub-space (plan-exh, plan-err) is enumerated completely; sizes, venues and scripts are sampled
     jobs=[
@@ -29,8 +39,16 @@ SPEC = dict(
     ],
     floors={Q: dict(cases=6000, plans_fully_consumed=2808, send_calls=90000, send_partial=60000, send_eagain=6000, send_error=700, backlog_drained=9000, onWrite=9000, writes_append_path=2500,
                     postponed_checks=18000, backlog_size_checks=200000, peer_bytes_verified=1200000000, independent_poll_checks=150000, streams_verified_end_to_end=6000,
-                    suspend_while_event_selected=150, resume_with_pending_data=1500, **{'set:send_outcomes': 12, 'set:write_venues': 5}),
+                    suspend_while_event_selected=150, resume_with_pending_data=1500,
+                    accept_plans_fully_consumed=5580, onAccepted=3000, onConnected=3000, writes_in_onAccepted=2300, writes_in_onConnected=2300,
+                    writes_in_onAccepted_leaving_backlog=1400, writes_in_onConnected_leaving_backlog=1400, suspends_in_onAccepted=1400, suspends_in_onConnected=1400,
+                    nothing_in_onAccepted=400, nothing_in_onConnected=400, resume_after_callback_suspend_delivered_pending=2300, writes_while_suspended_since_callback=1100,
+                    **{'set:send_outcomes': 12, 'set:write_venues': 9, 'set:fresh_client_acts': 24}),
             T: dict(cases=160000, plans_fully_consumed=70308, send_calls=2300000, send_partial=1400000, send_eagain=190000, send_error=19000, backlog_drained=250000, onWrite=250000, writes_append_path=70000,
                     postponed_checks=490000, backlog_size_checks=5500000, peer_bytes_verified=36000000000, independent_poll_checks=3600000, streams_verified_end_to_end=160000,
-                    suspend_while_event_selected=6000, resume_with_pending_data=60000, **{'set:send_outcomes': 12, 'set:write_venues': 5})},
+                    suspend_while_event_selected=6000, resume_with_pending_data=60000,
+                    accept_plans_fully_consumed=140580, onAccepted=60000, onConnected=60000, writes_in_onAccepted=50000, writes_in_onConnected=50000,
+                    writes_in_onAccepted_leaving_backlog=30000, writes_in_onConnected_leaving_backlog=30000, suspends_in_onAccepted=30000, suspends_in_onConnected=30000,
+                    nothing_in_onAccepted=9000, nothing_in_onConnected=9000, resume_after_callback_suspend_delivered_pending=55000, writes_while_suspended_since_callback=27000,
+                    **{'set:send_outcomes': 12, 'set:write_venues': 9, 'set:fresh_client_acts': 24})},
 )
